@@ -1172,7 +1172,7 @@ pub fn replay<F: Fl>(prop: &str, case: &Value) -> Vec<Violation> {
         return out.viols.into_values().collect();
     }
     let c: GCase = serde_json::from_value(case["case"].clone()).expect("gsweep case");
-    set_churn(c.churn);
+    set_churn(c.churn.max(churn()));
     let m = GModel::new(c.n, F::DIRECTED, &c.conns, &c.vals);
     let w = build_world::<F>(&c.vals, &c.conns);
     let conns_t: Vec<(K, K)> = c.conns.iter().map(|(u, v)| (*v, *u)).collect();
